@@ -198,6 +198,10 @@ def corpus():
         {"store": "file", "plaintext": False, "users": [u("bob", "bcrypt", b"pw", ["ego.logon"])],
          "steps": [su("Carol", b"pw1", ["ego.logon"]), s("Carol", b"pw1"), s("CAROL", b"nope"),
                    su("CAROL", b"pw2", ["EGO.ROOT"]), s("cArOl", b"pw2"), du("cArol"), s("carol", b"pw2"), s("bob", b"pw")]},
+        # SetUser with a password over 72 bytes: HashPassword fails, no credential is stored, nobody logs in with it
+        {"store": "file", "plaintext": False, "users": [u("bob", "sha", b"pw", ["ego.logon"])],
+         "steps": [su("Longjohn", b"S" * 80, ["ego.logon"]), s("longjohn", b"S" * 80), s("longjohn", b"S" * 72 + b"other"),
+                   su("BOB", b"T" * 73, ["ego.root"]), s("bob", b"T" * 73), s("bob", b"T" * 72)]},
         {"store": "db", "plaintext": False, "users": [u("bob", "bcrypt", b"pw", ["ego.logon"])],
          "steps": [su("Carol", b"pw1", ["ego.logon"]), s("Carol", b"pw1"), s("carol", b"nope"),
                    su("CAROL", b"pw2", ["tables"]), s("carol", b"pw2"), su("carol", b"pw3", ["ego.logon"]), s("Carol", b"pw2"),
@@ -251,7 +255,7 @@ def vstep(s):
     if op == "change":
         return "Change %s (%s)" % (vf.vstr(bytes.fromhex(s["user"])), vstored(s["fmt"], bytes.fromhex(s["pw"])))
     if op == "setuser":
-        return "SetU %s (%s) %s" % (vf.vstr(bytes.fromhex(s["user"])), vstored("bcrypt", bytes.fromhex(s["pw"])), vperm(s["perms"]))
+        return "SetU %s %s %s" % (vf.vstr(bytes.fromhex(s["user"])), vf.vstr(bytes.fromhex(s["pw"])), vperm(s["perms"]))
     if op == "deluser":
         return "DelU %s" % vf.vstr(bytes.fromhex(s["user"]))
     return "Login %s %s" % (vf.vstr(bytes.fromhex(s["user"])), vf.vstr(bytes.fromhex(s["pass"])))
@@ -264,7 +268,7 @@ Definition cls (init : user) (st : store) : N :=
   | None => 3
   | Some y => if str_eqb (upass y) (upass init) then 0 else if is_bcrypt (upass y) then 1 else 2
   end.
-Inductive stp := Login (u p : str) | Change (n c : str) | SetU (n c : str) (ps : list str) | DelU (n : str).
+Inductive stp := Login (u p : str) | Change (n c : str) | SetU (n pw : str) (ps : list str) | DelU (n : str).
 (* [base] = what the harness last wrote per user (seed or change); classes are relative to it *)
 Fixpoint runs (pt : bool) (base st : store) (steps : list stp) : list N :=
   match steps with
@@ -274,9 +278,9 @@ Fixpoint runs (pt : bool) (base st : store) (steps : list stp) : list N :=
   | Change n c :: r => let st' := change_password st n c in
                        let base' := change_password base n c in
                        (match lookup n st with Some _ => 1 | None => 0 end) :: map (fun x => cls x st') base' ++ runs pt base' st' r
-  | SetU n c ps :: r => let st' := set_user st n c ps in
-                        let base' := set_user base n c ps in
-                        1 :: map (fun x => cls x st') base' ++ runs pt base' st' r
+  | SetU n pw ps :: r => let st' := set_user_pw toy st n pw ps in
+                        let base' := set_user_pw toy base n pw ps in
+                        (if N.of_nat (length pw) <=? 72 then 1 else 0) :: map (fun x => cls x st') base' ++ runs pt base' st' r
   | DelU n :: r => let st' := delete_user st n in
                    let base' := delete_user base n in
                    1 :: map (fun x => cls x st') base' ++ runs pt base' st' r
@@ -358,7 +362,16 @@ def run(ck):
                     rep("write-path-failed", "%s %r failed" % (st["op"], cn), k)
                     break
                 if st["op"] == "setuser":
-                    info[cn] = ("bcrypt", bytes.fromhex(st["pw"]), st["perms"])
+                    npw = bytes.fromhex(st["pw"])
+                    if so.get("credset") != (len(npw) <= 72):
+                        rep("setuser-credential", "SetUser(%r, %d-byte password) %s a new credential; HashPassword accepts at most 72 "
+                            "bytes, so a longer password must leave the record's credential as it was" % (
+                                cn, len(npw), "stored" if so.get("credset") else "did not store"), k)
+                        break
+                    if len(npw) <= 72:
+                        info[cn] = ("bcrypt", npw, st["perms"])
+                    else:
+                        info[cn] = (info[cn][0], info[cn][1], st["perms"]) if cn in info else ("raw", b"", st["perms"])
                     changed.add(cn)
                 else:
                     info.pop(cn, None)
@@ -488,7 +501,8 @@ def run(ck):
             w = 1 + len(order)
             row = m[pos: pos + w]
             pos += w
-            real = [1 if so["ok"] else 0] + [CLS.get(so["stored"].get(nm, "missing"), 2) for nm in order]
+            first = so.get("credset") if stp.get("op") == "setuser" else so["ok"]
+            real = [1 if first else 0] + [CLS.get(so["stored"].get(nm, "missing"), 2) for nm in order]
             if row != real:
                 bad = (k, row, real)
                 break
